@@ -147,6 +147,20 @@ Qed.
 
 (* under the invariant rfbSendFramebufferUpdate never reads outside the framebuffer and never
    sends a rectangle (or a CopyRect source) outside the client's picture *)
+Lemma count_fix_inside W H UC U :
+  0 < W -> 0 < H -> WF UC -> WF U ->
+  (forall x y, rgn_mem UC x y = true -> inS W H x y) -> (forall x y, rgn_mem U x y = true -> inS W H x y) ->
+  forall x y, rgn_mem (snd (count_fix UC U)) x y = true -> inS W H x y.
+Proof.
+  intros HW HH HUC HU HUCin HUin. unfold count_fix. cbv zeta.
+  destruct (rgn_count UC + rgn_count U + 6 <? 65535); cbn [snd]; [exact HUin|].
+  assert (HB : WF (rgn_bbox U)) by wf.
+  assert (HBin : forall x y, rgn_mem (rgn_bbox U) x y = true -> inS W H x y) by (apply bbox_inside; assumption).
+  destruct (rgn_count UC + rgn_count (rgn_bbox U) + 6 <? 65535); cbn [snd]; [exact HBin|].
+  apply bbox_inside; try assumption; [wf|].
+  intros x y Hm. rewrite rgn_or_mem in Hm by assumption. apply orb_true_iff in Hm. destruct Hm; auto.
+Qed.
+
 Lemma send_total_c st c :
   0 < sW st -> 0 < sH st -> InvC (sW st) (sH st) (fb_for st c) c ->
   scaled_guard c = false -> exists r, send_client st c = Some r.
@@ -194,16 +208,19 @@ Proof.
     destruct (redraw_into_sup st (set_curpos c1 (sCurX st) (sCurY st)) _ HW HH Ha) as [Hb _].
     split; [exact Hb|]. apply redraw_into_in; try assumption. apply redraw_into_in; assumption. }
   destruct HU3c as [HU3c HU3cin].
-  assert (HU4 : WF (coalesce st U3c) /\ forall x y, rgn_mem (coalesce st U3c) x y = true -> inS (sW st) (sH st) x y).
-  { unfold coalesce. destruct ((sMaxRects st >? 0) && (rgn_count U3c >? sMaxRects st)); [|auto].
+  destruct (count_fix_spec UC U3c HUC HU3c) as (HUCf & HU3f & _ & HfUC & _).
+  pose proof (count_fix_inside (sW st) (sH st) UC U3c HW HH HUC HU3c (fun x y Hm => proj1 (HUCin x y Hm)) HU3cin) as HU3fin.
+  set (UCf := fst (count_fix UC U3c)) in *. set (U3f := snd (count_fix UC U3c)) in *.
+  assert (HU4 : WF (coalesce st U3f) /\ forall x y, rgn_mem (coalesce st U3f) x y = true -> inS (sW st) (sH st) x y).
+  { unfold coalesce. destruct ((sMaxRects st >? 0) && (rgn_count U3f >? sMaxRects st)); [|auto].
     split; [wf|]. apply bbox_inside; assumption. }
   destruct HU4 as [HU4 HU4in].
   rewrite Hpw, Hph.
   rewrite filter_raw_all by exact HU4.
   rewrite (iter_rects_inside _ _ false false _ HU4 HU4in).
   unfold copy_wrects.
-  rewrite (iter_rects_inside _ _ _ _ _ HUC (fun x y Hm => proj1 (HUCin x y Hm))).
-  rewrite (iter_rects_shift_inside _ _ _ _ _ _ _ HUC (fun x y Hm => proj2 (HUCin x y Hm))).
+  rewrite (iter_rects_inside _ _ _ _ _ HUCf (fun x y Hm => proj1 (HUCin x y (HfUC x y Hm)))).
+  rewrite (iter_rects_shift_inside _ _ _ _ _ _ _ HUCf (fun x y Hm => proj2 (HUCin x y (HfUC x y Hm)))).
   cbn [andb]. eexists. reflexivity.
 Qed.
 
@@ -248,7 +265,8 @@ Proof.
   assert (HU3 : WF U3) by (unfold U3; wf).
   destruct (soft_cursor st _ U3) as [c2 U3c] eqn:Esoft.
   destruct (soft_cursor_spec _ _ _ _ _ HW HH HU3 Esoft) as (HU3c & _).
-  destruct (coalesce_spec st U3c HU3c) as [HU4 _].
+  destruct (count_fix_spec UC U3c HUC HU3c) as (HUCf & HU3f & _).
+  destruct (coalesce_spec st _ HU3f) as [HU4 _].
   match type of Hs with (if ?cond then _ else _) = _ => destruct cond eqn:Echeck end; [|discriminate].
   inversion Hs; subst c' n rects. clear Hs.
   apply andb_true_iff in Echeck. destruct Echeck as [Echeck E4].
@@ -262,7 +280,7 @@ Proof.
   - unfold rects_inside in E3, E4. rewrite forallb_forall in E3, E4.
     apply Forall_forall. intros w Hw. apply in_map_iff in Hw. destruct Hw as (rc & <- & Hrc).
     specialize (E3 rc Hrc). specialize (E4 _ (in_map _ _ _ Hrc)).
-    unfold copy_wrects in Hrc. apply (iter_In_nonempty _ _ _ _ HUC) in Hrc.
+    unfold copy_wrects in Hrc. apply (iter_In_nonempty _ _ _ _ HUCf) in Hrc.
     destruct rc as [[[x1 y1] x2] y2]. unfold wcopy_of, rect_inside, rect_shift, rect_nonempty in *. cbn. lia.
   - unfold rects_inside in E1. rewrite forallb_forall in E1.
     apply Forall_forall. intros w Hw. apply in_map_iff in Hw. destruct Hw as (rc & <- & Hrc).
